@@ -411,7 +411,7 @@ func TestC03(t *testing.T) {
 		r.labels["backing:"+p.Cfg.Backing]++
 		Col.AddExtra("snapshots_checked", r.snapshots)
 		Col.AddExtra("snapshots_with_intermediate_prefix", r.intermediate)
-		Col.Case(p.Hash(), func() string { return p.Cfg.String() + " " + clip(string(p.Extra), 700) }, r.intermediate > 0 && r.mergerCycles > 0, r.labels, 0)
+		Col.Case(p.Hash(), func() string { return ConcCompact(p) }, r.intermediate > 0 && r.mergerCycles > 0, r.labels, 0)
 	})
 }
 
@@ -441,7 +441,12 @@ func TestC16(t *testing.T) {
 		}
 		r := RunC16(rt, p)
 		r.labels["backing:"+p.Cfg.Backing]++
-		Col.Case(p.Hash(), func() string { return p.Compact() + " " + clip(string(p.Extra), 500) }, r.blockedAtClose, r.labels, 0)
+		Col.Case(p.Hash(), func() string {
+			if len(p.Ops) > 0 {
+				return p.Compact()
+			}
+			return ConcCompact(p)
+		}, r.blockedAtClose, r.labels, 0)
 	})
 }
 
@@ -456,7 +461,7 @@ func TestC17(t *testing.T) {
 			r.labels["deferredSort"]++
 		}
 		nt := r.mergerCycles > 0 && (p.Cfg.Backing == "mem" || r.rounds > 0) && r.snapshots > 0
-		Col.Case(p.Hash(), func() string { return p.Cfg.String() + " " + clip(string(p.Extra), 500) }, nt, r.labels, 0)
+		Col.Case(p.Hash(), func() string { return ConcCompact(p) }, nt, r.labels, 0)
 	})
 }
 
